@@ -392,7 +392,7 @@ pub fn instance(form: &Form, rng: &mut Rng, opt: GenOpt, fixed: &BTreeMap<char, 
             sp = if pops {
                 *rng.pick(&[0x5ffffcu32, 0xffff1c, 0x400000, 0xffbf20, 0x5ffffe, 0xffbf1c, 0x5ffff8])
             } else {
-                *rng.pick(&[0x600000u32, 0xffff20, 0x400004, 0xffbf24, 0xffbf20, 0x600002, 0x400000])
+                *rng.pick(&[0x600000u32, 0xffff20, 0x400004, 0xffbf24, 0xffbf20, 0x600002, 0x400000, 0, 2, 4])
             };
         }
         c.er[7] = sp | if opt.wild_addr { (rng.u8() as u32) << 24 } else { 0 };
@@ -416,14 +416,25 @@ pub fn instance(form: &Form, rng: &mut Rng, opt: GenOpt, fixed: &BTreeMap<char, 
         let size = form.size.max(1);
         let target = data_addr(rng, size, opt.vector_data);
         let hi = if opt.wild_addr { (rng.u8() as u32) << 24 } else { 0 };
+        // every twelfth register-indirect operand falls off the edge of a region: below address 0 (the register must wrap on all
+        // 32 bits, the access at H'FFFFFx is unmapped and must fail), just below DRAM / on-chip RAM, past the top of a region
+        let edge = rng.chance(1, 12);
+        // (at the very bottom / top of the 32-bit range the upper byte matters too: half of the edge cases keep it zero)
+        let hi = if edge && rng.chance(1, 2) { 0 } else { hi };
         match kind {
             EaKind::Ind | EaKind::PostInc => {
                 let r = vals[&rl.unwrap()] as usize & 7;
                 c.er[r] = target | hi;
+                if edge {
+                    c.er[r] = *rng.pick(&[0xffffffu32, 0xfffffe, 0xfffffc, 0x5fffff, 0x5ffffe, 0x5ffffd, 0xff, 0xfe, 0xfd, 0x100, 0x600000, 0xffffea, 0xffffe8]) | hi;
+                }
             }
             EaKind::PreDec => {
                 let r = vals[&rl.unwrap()] as usize & 7;
                 c.er[r] = (target + size) | hi;
+                if edge {
+                    c.er[r] = *rng.pick(&[0u32, 1, 2, 3, 4, 0x400000, 0x400001, 0x400002, 0x400003, 0xffbf20, 0xffbf21, 0xffbf22, 0x100, 0x102, 0x600000, 0x600002]) | hi;
+                }
             }
             EaKind::Disp16 | EaKind::Disp24 => {
                 let r = vals[&rl.unwrap()] as usize & 7;
@@ -1146,7 +1157,17 @@ impl StepMode {
             c.pc = code_addr(rng, 2);
             c.put_words(c.pc, &[0x5700]);
             // argument block in RAM or DRAM, away from the code
-            let argp = if rng.chance(1, 2) { 0xffd000 + 4 * rng.below(512) as u32 } else { 0x430000 + 4 * rng.below(4096) as u32 };
+            let mut argp = if rng.chance(1, 2) { 0xffd000 + 4 * rng.below(512) as u32 } else { 0x430000 + 4 * rng.below(4096) as u32 };
+            // the argument block exactly at the top of a region: set_handler's block is two longs, write's three — neither call
+            // may look at the long behind its block (behind DRAM there is a hole, behind on-chip RAM the I/O registers)
+            if rng.chance(1, 10) {
+                let two = matches!(k % 10, 6..=8);
+                argp = if two { *rng.pick(&[0x5ffff8u32, 0xffff18, 0x5ffff8, 0x5ffff4]) } else { *rng.pick(&[0x5ffff4u32, 0xffff14, 0x5ffff0]) };
+                if c.pc >= 0x5fffe0 && c.pc < 0x600000 || c.pc >= 0xffff00 {
+                    c.pc = 0xffc000;
+                    c.put_words(c.pc, &[0x5700]);
+                }
+            }
             c.er[1] = argp;
             match k % 10 {
                 0..=5 => {
@@ -1538,6 +1559,10 @@ pub fn diff_state(case: &str, imp: &str, other: &str, dc: &[&str], with_cost: bo
     None
 }
 
+fn clip_s(x: &str) -> String {
+    x.chars().take(200).collect()
+}
+
 fn allowed_tags(prop: &str) -> &'static [&'static str] {
     match prop {
         "C04" => &["io"],
@@ -1593,7 +1618,14 @@ pub fn judge_step(ctx: &Ctx, case: &str, imp: &str, drv: &str) -> (Verdict, Stri
         let hk = fnv(&format!("{}{}", key, imp_class));
         return (v, key, Some(hk));
     }
+    // a data access to an unmapped address must fail (C09), whatever the instruction: nothing else about the case is judged
+    let unmapped_only = tags.contains(&"unmapped") && tags.iter().all(|t| *t == "unmapped" || allowed_tags(prop).contains(t));
     let oracle: Option<Option<String>> = match class {
+        "valid" if in_family && unmapped_only && !tags_ok && prop != "C20" => Some(if imp_class == "ok" {
+            Some(format!("{} accesses unmapped memory and must fail with an access error, impl executed it: {}", form, clip_s(imp)))
+        } else {
+            None
+        }),
         "valid" if in_family && tags_ok => Some(if imp_class != "ok" {
             Some(format!("valid {} must execute, impl says {}", form, imp))
         } else if prop == "C20" {
